@@ -511,3 +511,190 @@ theorem nthPerm_perm : ∀ (f k : Nat) (l : List Pred), (nthPerm f k l).Perm l
 theorem ordK_ok (k : Nat) : OrdOK (ordK k) := fun ps _ => (nthPerm_perm ps.length k ps).mem_iff
 
 end ErgVerif
+
+namespace ErgVerif
+
+/-! ## fuel: `Pred.weight` suffices -/
+
+theorem Pred.weight_pos (p : Pred) : 1 ≤ p.weight := by
+  cases p <;> simp [Pred.weight] <;> omega
+
+theorem andsRaw_weight : ∀ (p a : Pred), a ∈ p.andsRaw → a.weight ≤ p.weight
+  | .and p q, a, h => by
+    simp only [Pred.andsRaw, List.mem_append] at h
+    rcases h with h | h
+    · have := andsRaw_weight p a h; simp [Pred.weight]; omega
+    · have := andsRaw_weight q a h; simp [Pred.weight]; omega
+  | .val _, a, h | .eq _, a, h | .ge _, a, h | .le _, a, h | .ne _, a, h | .or _, a, h | .not _, a, h => by
+    simp [Pred.andsRaw] at h; subst h; exact Nat.le_refl _
+
+theorem ands_weight (l1 l2 a : Pred) (h : a ∈ (Pred.and l1 l2).ands) : a.weight ≤ l1.weight + l2.weight := by
+  rw [Pred.ands, mem_dedup] at h
+  simp only [Pred.andsRaw, List.mem_append] at h
+  rcases h with h | h
+  · have := andsRaw_weight _ a h; omega
+  · have := andsRaw_weight _ a h; omega
+
+theorem toList_weight : ∀ (ps : PredList) (a : Pred), a ∈ ps.toList → a.weight ≤ ps.weight
+  | .nil, _, h => by simp [PredList.toList] at h
+  | .cons p ps, a, h => by
+    simp only [PredList.toList, List.mem_cons] at h
+    rcases h with rfl | h
+    · simp [PredList.weight]
+    · have := toList_weight ps a h; simp [PredList.weight]; omega
+
+theorem find?_congr' {l : List Pred} {f g : Pred → Bool} (h : ∀ x ∈ l, f x = g x) : l.find? f = l.find? g := by
+  induction l with
+  | nil => rfl
+  | cons a l ih =>
+    simp only [List.find?_cons, h a (by simp)]
+    rw [ih (fun x hx => h x (List.mem_cons_of_mem _ hx))]
+
+theorem all_congr' {l : List Pred} {f g : Pred → Bool} (h : ∀ x ∈ l, f x = g x) : l.all f = l.all g := by
+  induction l with
+  | nil => rfl
+  | cons a l ih =>
+    simp only [List.all_cons, h a (by simp)]
+    rw [ih (fun x hx => h x (List.mem_cons_of_mem _ hx))]
+
+theorem any_congr' {l : List Pred} {f g : Pred → Bool} (h : ∀ x ∈ l, f x = g x) : l.any f = l.any g := by
+  induction l with
+  | nil => rfl
+  | cons a l ih =>
+    simp only [List.any_cons, h a (by simp)]
+    rw [ih (fun x hx => h x (List.mem_cons_of_mem _ hx))]
+
+theorem reduceStep_subset (ord : List Pred → List Pred) (mode : Bool) (sup : Pred → Pred → Bool) (red : List Pred) (pred x : Pred)
+    (h : x ∈ reduceStep ord mode sup red pred) : x ∈ red ∨ x = pred := by
+  unfold reduceStep at h
+  have herase : ∀ red' : List Pred, (∀ y ∈ red', y ∈ red) →
+      x ∈ (if red'.all (fun ex => if mode then !(sup pred ex) else !(sup ex pred)) then red' ++ [pred] else red') → x ∈ red ∨ x = pred := by
+    intro red' hsub hx
+    by_cases hc : (red'.all (fun ex => if mode then !(sup pred ex) else !(sup ex pred))) = true
+    · rw [if_pos hc] at hx
+      rcases List.mem_append.mp hx with hx | hx
+      · exact Or.inl (hsub x hx)
+      · exact Or.inr (by simpa using hx)
+    · rw [if_neg hc] at hx
+      exact Or.inl (hsub x hx)
+  cases hv : (ord red).find? (fun ex => if mode then sup ex pred else sup pred ex) with
+  | none => rw [hv] at h; exact herase red (fun _ hy => hy) h
+  | some old => rw [hv] at h; exact herase (red.erase old) (fun _ hy => List.mem_of_mem_erase hy) h
+
+theorem reduceStep_congr (ord : List Pred → List Pred) (hord : OrdOK ord) (mode : Bool) (s1 s2 : Pred → Pred → Bool)
+    (red : List Pred) (pred : Pred) (h : ∀ x ∈ red, s1 x pred = s2 x pred ∧ s1 pred x = s2 pred x) :
+    reduceStep ord mode s1 red pred = reduceStep ord mode s2 red pred := by
+  unfold reduceStep
+  have hf : (ord red).find? (fun ex => if mode then s1 ex pred else s1 pred ex)
+      = (ord red).find? (fun ex => if mode then s2 ex pred else s2 pred ex) := by
+    apply find?_congr'
+    intro x hx
+    have := h x ((hord red x).mp hx)
+    cases mode <;> simp [this.1, this.2]
+  rw [hf]
+  have hall : ∀ red' : List Pred, (∀ y ∈ red', y ∈ red) →
+      red'.all (fun ex => if mode then !(s1 pred ex) else !(s1 ex pred)) = red'.all (fun ex => if mode then !(s2 pred ex) else !(s2 ex pred)) := by
+    intro red' hsub
+    apply all_congr'
+    intro x hx
+    have := h x (hsub x hx)
+    cases mode <;> simp [this.1, this.2]
+  cases (ord red).find? (fun ex => if mode then s2 ex pred else s2 pred ex) with
+  | none => simp only; rw [hall red (fun _ hy => hy)]
+  | some old => simp only; rw [hall (red.erase old) (fun _ hy => List.mem_of_mem_erase hy)]
+
+theorem foldl_reduce_congr (ord : List Pred → List Pred) (hord : OrdOK ord) (mode : Bool) (s1 s2 : Pred → Pred → Bool)
+    (S : Pred → Prop) (hS : ∀ a b, S a → S b → s1 a b = s2 a b) :
+    ∀ (qs acc : List Pred), (∀ x ∈ qs, S x) → (∀ x ∈ acc, S x) →
+      qs.foldl (reduceStep ord mode s1) acc = qs.foldl (reduceStep ord mode s2) acc ∧
+      ∀ x ∈ qs.foldl (reduceStep ord mode s2) acc, S x
+  | [], acc, _, hacc => ⟨rfl, hacc⟩
+  | q :: qs, acc, hqs, hacc => by
+    simp only [List.foldl]
+    have hq : S q := hqs q (by simp)
+    rw [reduceStep_congr ord hord mode s1 s2 acc q (fun x hx => ⟨hS _ _ (hacc x hx) hq, hS _ _ hq (hacc x hx)⟩)]
+    apply foldl_reduce_congr ord hord mode s1 s2 S hS qs _ (fun x hx => hqs x (List.mem_cons_of_mem _ hx))
+    intro x hx
+    rcases reduceStep_subset ord mode s2 acc q x hx with hx | rfl
+    · exact hacc x hx
+    · exact hq
+
+theorem reducePreds_congr (ord : List Pred → List Pred) (hord : OrdOK ord) (mode : Bool) (s1 s2 : Pred → Pred → Bool)
+    (ps : List Pred) (hS : ∀ a b, a ∈ ps → b ∈ ps → s1 a b = s2 a b) :
+    reducePreds ord mode s1 ps = reducePreds ord mode s2 ps ∧ ∀ x ∈ reducePreds ord mode s2 ps, x ∈ ps := by
+  unfold reducePreds
+  exact foldl_reduce_congr ord hord mode s1 s2 (· ∈ ps) hS (ord ps) [] (fun x hx => (hord ps x).mp hx) (by simp)
+
+/-- more fuel than the total weight never changes the answer: `isSuperPred` is the value of the (fuel-free) Rust recursion -/
+theorem isSuper_fuel_stable (cfg : Cfg) (hord : OrdOK cfg.ord) :
+    ∀ (n m : Nat) (l r : Pred), l.weight + r.weight < n → l.weight + r.weight < m → isSuper cfg n l r = isSuper cfg m l r := by
+  intro n
+  induction n with
+  | zero => intro m l r h; omega
+  | succ n ih =>
+    intro m l r hn hm
+    cases m with
+    | zero => omega
+    | succ m =>
+      have key : ∀ a b : Pred, a.weight + b.weight < l.weight + r.weight → isSuper cfg n a b = isSuper cfg m a b :=
+        fun a b hab => ih m a b (by omega) (by omega)
+      unfold isSuper
+      split
+      · rfl
+      · simp only
+        split
+        all_goals first
+          | rfl
+          | skip
+        case h_15 l1 l2 r1 r2 _ =>
+          have hL := reducePreds_congr cfg.ord hord true (isSuper cfg n) (isSuper cfg m) (Pred.and l1 l2).ands (by
+            intro a b ha hb
+            have := ands_weight l1 l2 a ha; have := ands_weight l1 l2 b hb
+            have := Pred.weight_pos (.and r1 r2)
+            apply key; simp only [Pred.weight] at *; omega)
+          have hR := reducePreds_congr cfg.ord hord true (isSuper cfg n) (isSuper cfg m) (Pred.and r1 r2).ands (by
+            intro a b ha hb
+            have := ands_weight r1 r2 a ha; have := ands_weight r1 r2 b hb
+            have := Pred.weight_pos (.and l1 l2)
+            apply key; simp only [Pred.weight] at *; omega)
+          rw [hL.1, hR.1]
+          have hpair : ∀ a ∈ reducePreds cfg.ord true (isSuper cfg m) (Pred.and l1 l2).ands,
+              ∀ b ∈ reducePreds cfg.ord true (isSuper cfg m) (Pred.and r1 r2).ands, isSuper cfg n a b = isSuper cfg m a b := by
+            intro a ha b hb
+            have := ands_weight l1 l2 a (hL.2 a ha); have := ands_weight r1 r2 b (hR.2 b hb)
+            apply key; simp only [Pred.weight] at *; omega
+          cases cfg.aa with
+          | legacy => exact all_congr' (fun b hb => any_congr' (fun a ha => hpair a ha b hb))
+          | fixed => exact all_congr' (fun a ha => any_congr' (fun b hb => hpair a ha b hb))
+          | off => rfl
+        case h_16 ls rs _ =>
+          have hL := reducePreds_congr cfg.ord hord false (isSuper cfg n) (isSuper cfg m) ls.toList (by
+            intro a b ha hb
+            have := toList_weight ls a ha; have := toList_weight ls b hb
+            have := Pred.weight_pos (.or rs)
+            apply key; simp only [Pred.weight] at *; omega)
+          have hR := reducePreds_congr cfg.ord hord false (isSuper cfg n) (isSuper cfg m) rs.toList (by
+            intro a b ha hb
+            have := toList_weight rs a ha; have := toList_weight rs b hb
+            have := Pred.weight_pos (.or ls)
+            apply key; simp only [Pred.weight] at *; omega)
+          rw [hL.1, hR.1]
+          apply all_congr'; intro b hb; apply any_congr'; intro a ha
+          have := toList_weight ls a (hL.2 a ha); have := toList_weight rs b (hR.2 b hb)
+          apply key; simp only [Pred.weight] at *; omega
+        case h_19 l' r' _ _ _ =>
+          have := Pred.weight_pos l'; have := Pred.weight_pos r'
+          rw [key _ _ (by simp only [Pred.weight]; omega), key _ _ (by simp only [Pred.weight]; omega)]
+        case h_20 ors _ _ _ =>
+          apply all_congr'; intro o ho
+          have := toList_weight ors o ho
+          apply key; simp only [Pred.weight]; omega
+        case h_21 ors _ _ _ _ =>
+          apply any_congr'; intro o ho
+          have := toList_weight ors o ho
+          apply key; simp only [Pred.weight]; omega
+        case h_22 l' r' _ _ _ _ _ =>
+          have := Pred.weight_pos l'; have := Pred.weight_pos r'
+          rw [key _ _ (by simp only [Pred.weight]; omega), key _ _ (by simp only [Pred.weight]; omega)]
+
+end ErgVerif
